@@ -43,9 +43,13 @@ type Src struct {
 	// first reported (-1 = not yet)
 	HandedAt []time.Duration
 	EndedAt  time.Duration
-	Faults   []string
-	OnHand   func(v int)
-	closing  bool
+	// how many scripted errors (steps or Final) were actually returned to the caller
+	ErrsReturned int
+	// how often the sticky Final error was returned
+	FinalReturned int
+	Faults        []string
+	OnHand        func(v int)
+	closing       bool
 }
 
 // Vals builds a source that yields vals and then End.
@@ -101,6 +105,7 @@ func (s *Src) Next(ctx context.Context) (int, error) {
 			}
 		})
 		if s.Final != nil {
+			hx.Atomically(func() { s.ErrsReturned++; s.FinalReturned++ })
 			return 0, s.Final
 		}
 		return 0, stream.End
@@ -122,6 +127,7 @@ func (s *Src) Next(ctx context.Context) (int, error) {
 			if s.EndedAt < 0 {
 				s.EndedAt = hx.Now()
 			}
+			s.ErrsReturned++
 		})
 		return 0, st.Err
 	}
@@ -181,3 +187,30 @@ func containsAny(list []string, sub string) bool {
 var ErrSrc = errors.New("source-error")
 var ErrSrc2 = errors.New("source-error-2")
 var ErrFn = errors.New("callback-error")
+
+// SrcOf is a scripted stream of arbitrary items (used as the outer stream of Flatten). It logs use
+// like Src but has no faults of its own.
+type SrcOf[T any] struct {
+	Name   string
+	Items  []T
+	pos    int
+	Closes int
+}
+
+func (s *SrcOf[T]) Next(ctx context.Context) (T, error) {
+	var zero T
+	if err := ctx.Err(); err != nil {
+		return zero, err
+	}
+	if s.pos >= len(s.Items) {
+		return zero, stream.End
+	}
+	v := s.Items[s.pos]
+	s.pos++
+	return v, nil
+}
+
+func (s *SrcOf[T]) Close() { s.Closes++ }
+
+// HandedOut is the number of items the stream has yielded so far.
+func (s *SrcOf[T]) HandedOut() int { return s.pos }
